@@ -218,8 +218,10 @@ def run_check(prop, cases, tier, seed, level='model_checking', functions=(), bou
         'property_id': prop, 'tier': tier, 'seed': seed, 'level': level, 'coverage': cov,
         'assumptions': list(assumptions), 'wall_s': round(time.time() - t0, 2), 'violations': n_viol,
     }
-    os.makedirs(os.path.join(driver.VERIF, 'evidence'), exist_ok=True)
-    json.dump(ev, open(os.path.join(driver.VERIF, 'evidence', prop + '.json'), 'w'), indent=1, default=str)
+    # runs against a scratch worktree (VERIF_REPO set, used for seeded changes) do not touch the evidence of /repo
+    evdir = os.path.join(driver.VERIF, 'evidence') if driver.REPO == '/repo' else os.path.join(driver.CACHE, 'evidence_scratch')
+    os.makedirs(evdir, exist_ok=True)
+    json.dump(ev, open(os.path.join(evdir, prop + '.json'), 'w'), indent=1, default=str)
     print('%s: %d cases, %d paths, %d assertion queries, %d violations, %d known, %d inconclusive, %.1fs' % (
         prop, len(results), paths, q['assert_queries'], n_viol, len(seen_known), len(inconc), time.time() - t0))
     if n_viol or broken:
